@@ -154,8 +154,34 @@ func (ch *Channel) NewStream(ctx context.Context, desc *grpc.StreamDesc, methodN
 	return ret, nil
 }
 
+// clientStreamWrapper is the value handed to callers. Its finalizer cancels
+// the stream's context. The methods that can block must keep the wrapper
+// reachable until they return: otherwise, when such a call is the caller's
+// last use of the stream (e.g. the RecvMsg of a generated CloseAndRecv), the
+// garbage collector may run the finalizer while the call is still in progress
+// and the call fails with a spurious Canceled status.
 type clientStreamWrapper struct {
 	grpc.ClientStream
+}
+
+func (w *clientStreamWrapper) Header() (metadata.MD, error) {
+	defer runtime.KeepAlive(w)
+	return w.ClientStream.Header()
+}
+
+func (w *clientStreamWrapper) CloseSend() error {
+	defer runtime.KeepAlive(w)
+	return w.ClientStream.CloseSend()
+}
+
+func (w *clientStreamWrapper) SendMsg(m interface{}) error {
+	defer runtime.KeepAlive(w)
+	return w.ClientStream.SendMsg(m)
+}
+
+func (w *clientStreamWrapper) RecvMsg(m interface{}) error {
+	defer runtime.KeepAlive(w)
+	return w.ClientStream.RecvMsg(m)
 }
 
 func getPeer(baseUrl *url.URL, tls *tls.ConnectionState) *peer.Peer {
